@@ -44,25 +44,31 @@ PROPS = {
     "C09": {
         "level": "proof",
         "lean_modules": ["Astria.Quorum.Model", "Astria.Quorum.Theorems", "Astria.Properties"],
+        "search_seeds": 1,
         "theorems": ["Astria.C09_quorum_exact", "Astria.C09_accept_sound", "Astria.C09_metadata_bound",
                      "Astria.C09_original_counterexamples"],
-        "harnesses": ["quorum"],
-        "monitors": ["quorum_sound", "metadata_bound"],
-        "scope_regex": r"^quorum (check|meta|fetchmeta) ",
-        "nontrivial_regex": r"^quorum (check .* => (ok|err:(no-quorum|duplicate-vote|bad-signature|exceeds-total))|meta |fetchmeta )",
-        "rule": "in-crate harness (child module of celestia::verify) calls the real ensure_commit_has_quorum with real ed25519 keys and "
+        "harnesses": ["quorum", "block"],
+        "monitors": ["quorum_sound", "metadata_bound", "receiver_block_bound", "receiver_attribution", "receiver_bound",
+                     "receiver_data_exact", "no_panic"],
+        "scope_regex": r"^(quorum (check|meta|fetchmeta)|block celestia) ",
+        "nontrivial_regex": r"^quorum (check .* => (ok|err:(no-quorum|duplicate-vote|bad-signature|exceeds-total))|meta |fetchmeta )|^block celestia ",
+        "rule": "(1) in-crate harness (child module of celestia::verify) calls the real ensure_commit_has_quorum with real ed25519 keys and "
                 "tendermint types: every k-of-n for n<=9 equal validators, one-big-validator sets around the 2/3 boundary for totals in every "
                 "residue mod 3 (incl. 2^40+r), 700 (thorough 20000) generated commits over 1..8 validators with powers from "
                 "{1,2,3,5,10,2^31,2^61,2^62,2^62+7}, honest subsets / forged, foreign-key, wrong-block, missing signatures / unknown validators / "
                 "duplicated CommitSigs / repeated keys in the set / height mismatch; and BlobVerifier::verify_metadata against a cached commit "
                 "for all four (chain id equal?, hash equal?) combinations; and 60 (thorough 600) metadata verifications end to end through the real "
-                "VerificationMeta::fetch with commit and validator set served by an in-process wiremock sequencer RPC. non-trivial = reached the tally (ok, no-quorum, duplicate, bad "
+                "VerificationMeta::fetch with commit and validator set served by an in-process wiremock sequencer RPC. (2) the `block celestia` lines of the block harness (harness/conductor/blobs.rs, "
+                "shared with C07): the full conductor pipeline decode -> verify_metadata (mocked sequencer RPC with real signed commits) -> "
+                "reconstruct_blocks_from_verified_blobs on honest blobs and on every single-element tampering (payload, proof, rollup id, block hash, "
+                "foreign rollup's blob, undecodable blobs), checking that only audited blobs of the conductor's own rollup are attached and that "
+                "junk is ignored without a panic. non-trivial = reached the tally (ok, no-quorum, duplicate, bad "
                 "signature) or a metadata decision; distinct = distinct trace lines",
         "trusted_base": [KERNEL, "hand-written model Astria/Quorum/Model.lean tied to block_verifier.rs / verify.rs by the correspondence run",
                          "harness /verif/harness/conductor/celestia.rs + Lean driver; ed25519 (astria-core-crypto) — sigOk is a parameter of every theorem",
                          "tendermint / tendermint-rpc types, moka cache"],
         "assumptions": ["the RPC transport, rate limiter and retry loop in front of VerificationMeta::fetch are exercised (wiremock) but not modelled",
-                        "rollup-blob Merkle binding (reconstruct.rs) is covered by C07's check, not this one"],
+                        "the rollup-blob Merkle binding theorems are C07's (tamper evidence in extractor form); this check re-uses that harness' conductor lines"],
         "explanation": "theorem: acceptance implies distinct validly-signing validators with > 2/3 of total power, for every signature oracle; "
                        "correspondence on every generated commit; monitors recompute the spec from the op alone",
     },
